@@ -176,8 +176,8 @@ def parseOpts (toks : List String) : Option Opts :=
 
 abbrev St := State KeyData Nat String
 
-def shC : Shape := ⟨Gen.CacheKey.keyFields, Gen.CacheKey.convCached, Gen.CacheKey.fallbackFields⟩
-def shM : Shape := ⟨Gen.CacheKey.keyFields, Gen.CacheKey.convMonitored, Gen.CacheKey.fallbackFields⟩
+def shC : Shape := ⟨Gen.CacheKey.keyFields, Gen.CacheKey.convCached⟩
+def shM : Shape := ⟨Gen.CacheKey.keyFields, Gen.CacheKey.convMonitored⟩
 
 def env (oracle : String) : Env Nat String KeyData :=
   { answer := fun _ _ _ => oracle, isEmpty := fun a => a == "-", normQ := normQ, utf8 := jsonUtf8, enc := id }
